@@ -16,6 +16,7 @@ class SimDaemon:
         self.latency_raw = latency_raw      # getrawtransactions only (a mempool refresh spanning blocks)
         self.version = 0                    # bumped by every change of chain or mempool
         self.listing_version = None         # version at the last getrawmempool
+        self.listing_height = None
         self.tip = None                 # GBlock
         self.pool = {}                  # txid -> GTx, insertion ordered
         self._height = None
@@ -167,6 +168,7 @@ class SimDaemon:
     async def mempool_hashes(self):
         await self._lat()
         self.listing_version = self.version
+        self.listing_height = self.tip.height      # the height this mempool snapshot belongs to
         return [hash_to_hex_str(txid) for txid in self.pool]
 
     async def getrawtransactions(self, hex_hashes, replace_errs=True):
